@@ -293,6 +293,14 @@ def register(S):
         return ctx.ret(ctx.top_ret())
 
     # ---------------------------------------------------------------- integer helpers
+    @S.pat(r"^core::num::<impl u(8|16|32|64|size)>::saturating_sub$")
+    def saturating_sub(ctx):
+        a, b = ctx.args
+        if isinstance(a, IntVal) and isinstance(b, IntVal):
+            lo, hi = max(0, a.lo - b.hi), max(0, a.hi - b.lo)
+            return ctx.ret(IntVal(a.ty, lo, hi, None, None, None, a.deps | b.deps, tags=a.tags | b.tags))
+        return ctx.ret(ctx.top_ret())
+
     @S.pat(r"^core::num::<impl u(8|16|32|64|size)>::checked_(sub|mul|add)$")
     def checked_op(ctx):
         a, b = ctx.args
